@@ -63,6 +63,55 @@ def appkey_crypto(t, root_pred):
     return path[-1:] == ['appkey'] and root_pred(root, path[:-1])
 
 
+def cflist_applied(c, res):
+    """the channel list of the accept is what the device ends up with (dynamic plans, CFList type 0): for every entry n
+    the slot NUM_JOIN_CHANNELS + n becomes None when the frequency is 0 ("unused"), Channel::new(freq, DR0, DR5) when the
+    frequency is valid for the region, and is otherwise left alone; nothing else is stored by the handler"""
+    cands = [p for p in c.prog.by_short if p.endswith('RegionHandler>::process_join_accept') and 'DynamicChannelPlan' in p]
+    if len(cands) != 1:
+        raise CheckError('anchor: DynamicChannelPlan::process_join_accept')
+    bf = c.bf(cands[0])
+    body = bf.body
+    n_none = n_some = 0
+    ok, why = True, ''
+    hz = None
+    for b in body.blocks:
+        if b.cleanup or b.idx not in bf.cfg.reach:
+            continue
+        for si, s_ in enumerate(b.stmts):
+            if not (s_.k == 'assign' and s_.lhs.proj):
+                continue
+            root, path = bf.root_of_place(s_.lhs)
+            if root != 1:
+                continue
+            lhs = flow.term_of_place(bf, s_.lhs)
+            idx = lhs[2] if lhs[0] == 'index' else None
+            okslot = path[:1] == ['channels'] and idx is not None and term_contains(idx, lambda y: isinstance(y, tuple) and y[:1] == ('cdef',) and 'NUM_JOIN_CHANNELS' in str(y)) \
+                and has_call(idx, 'Iterator::next')
+            if not okslot:
+                ok, why = False, 'store to %s' % term_str(lhs)[:100]
+                continue
+            cs = path_conditions(bf, b.idx)
+            val = peel(term_of_operand(bf, s_.rv.ops[0])) if s_.rv.k == 'use' else (('agg', 'x::' + (s_.rv.d.get('variant') or ''), tuple((str(i), term_of_operand(bf, o)) for i, o in enumerate(s_.rv.ops))) if s_.rv.k == 'agg' else ('other',))
+            if val[0] == 'agg' and val[1].endswith('None'):
+                n_none += 1
+                z = [x for x in cs if x[0][0] == 'Eq' and peel(x[0][2]) == ('const', 0) and is_call(x[0][1], 'Frequency::hz') and cond_true(x)]
+                if not z:
+                    ok, why = False, 'slot cleared without the frequency being 0'
+            elif val[0] == 'agg' and val[1].endswith('Some'):
+                n_some += 1
+                v = peel(val[2][0][1])
+                okv = is_call(v, 'Channel::new') and is_call(v[2][0], 'Frequency::hz') and str(v[2][1]).count('_0') and str(v[2][2]).count('_5')
+                g = [x for x in cs if is_call(x[0], 'frequency_valid') and cond_true(x) and peel(x[0][2][1]) == peel(v[2][0])] if okv else []
+                if not (okv and g):
+                    ok, why = False, 'slot set to %s without frequency_valid of that frequency' % term_str(v)[:80]
+            else:
+                ok, why = False, 'slot := %s' % term_str(val)[:60]
+    ok = ok and n_none == 1 and n_some == 1
+    res.require(ok, 'C11:DynamicChannelPlan::process_join_accept:cflist-applied', 'the CFList of an accepted JoinAccept is not applied entry by entry (unused = removed, valid = defined DR0..DR5, else kept): %s (removals %d, definitions %d)' % (why, n_none, n_some),
+                body.path, 'PROVENANCE(channel slots from the CFList)', instance='process_join_accept: slot J+n = None for frequency 0, Channel::new(freq, DR0, DR5) for a valid frequency, untouched otherwise')
+
+
 def run(tier):
     res = Result(PID)
     c = ctx('ws')
@@ -372,6 +421,7 @@ def run(tier):
     okp = len(pj) == 1 and has_call(term_of_operand(bh, pj[0][1].args[1]), 'c_f_list')
     res.require(okp, 'C11:Otaa::handle_rx:cflist', 'the CFList of the accept is not handed to the region', bh.body.path, 'PROVENANCE(CFList)',
                 instance='Otaa::handle_rx: region.process_join_accept(accept.c_f_list())')
+    cflist_applied(c, res)
     res.coverage.update({'functions': ['Otaa::prepare_buffer', 'JoinRequest::build_into', 'write_mic', 'Otaa::handle_rx', 'check_mic_and_decrypt_in_place', 'validate_mic', 'Mac::handle_rx',
                                        'Otaa::rx2_complete', 'derive_session_key', 'derive_nwkskey', 'derive_appskey', 'Session::derive_new', 'Session::new'] + sorted(JOIN_ACCEPT_FIELDS),
                          'mac_state_writers': sorted(writers), 'configs': [c.info]})
